@@ -480,6 +480,14 @@ Definition step (cf : cfg) (s : state) (e : event) : state :=
 
 Definition run (cf : cfg) (evs : list event) : state := fold_left (step cf) evs (init cf).
 
+(** A call that starts on an `InterruptibilityState` shared with earlier operations (`reborrow()`):
+    what the state owns is carried over - whether a signal was received ([recv]) and the polls counted
+    since ([cnt]) - as are the signals sent and not yet read ([pend]); the flags of the
+    `InterruptibleStream` itself start fresh. *)
+Definition init_carry (cf : cfg) (recv : bool) (cnt pend : nat) : state :=
+  (init cf) <| w := wrap0 <| w_recv := recv |> <| w_cnt := cnt |> |> <| ipend := pend |>.
+
+
 Definition starts (t : list tev) : list nat :=
   flat_map (fun e => match e with Start i => [i] | End _ _ => [] end) t.
 Definition ends (t : list tev) : list nat :=
